@@ -182,7 +182,7 @@ theorem skip_1 (cfg : Cfg) (stk : Nat) (d : Dec) (hs : d.status = none) :
 theorem skip_2 (cfg : Cfg) (stk : Nat) (d : Dec) (hs : d.status = none) :
     skip cfg (stk + 1) 2 d = { d with boolPending := false } := by rw [skip_ok _ _ _ _ hs]; simp [skipCase]
 theorem skip_3 (cfg : Cfg) (stk : Nat) (d : Dec) (hs : d.status = none) :
-    skip cfg (stk + 1) 3 d = d.readerSkip 1 := by rw [skip_ok _ _ _ _ hs]; simp [skipCase]
+    skip cfg (stk + 1) 3 d = d.skipFixed cfg 1 := by rw [skip_ok _ _ _ _ hs]; simp [skipCase]
 theorem skip_4 (cfg : Cfg) (stk : Nat) (d : Dec) (hs : d.status = none) :
     skip cfg (stk + 1) 4 d = (readVarint d).2 := by rw [skip_ok _ _ _ _ hs]; simp [skipCase]
 theorem skip_5 (cfg : Cfg) (stk : Nat) (d : Dec) (hs : d.status = none) :
@@ -190,7 +190,7 @@ theorem skip_5 (cfg : Cfg) (stk : Nat) (d : Dec) (hs : d.status = none) :
 theorem skip_6 (cfg : Cfg) (stk : Nat) (d : Dec) (hs : d.status = none) :
     skip cfg (stk + 1) 6 d = (readVarint d).2 := by rw [skip_ok _ _ _ _ hs]; simp [skipCase]
 theorem skip_7 (cfg : Cfg) (stk : Nat) (d : Dec) (hs : d.status = none) :
-    skip cfg (stk + 1) 7 d = d.readerSkip 8 := by rw [skip_ok _ _ _ _ hs]; simp [skipCase]
+    skip cfg (stk + 1) 7 d = d.skipFixed cfg 8 := by rw [skip_ok _ _ _ _ hs]; simp [skipCase]
 theorem skip_8 (cfg : Cfg) (stk : Nat) (d : Dec) (hs : d.status = none) :
     skip cfg (stk + 1) 8 d = (readBinary d).2.2 := by rw [skip_ok _ _ _ _ hs]; simp [skipCase]
 theorem skip_9 (cfg : Cfg) (stk : Nat) (d : Dec) (hs : d.status = none) :
@@ -206,7 +206,7 @@ theorem skip_12 (cfg : Cfg) (stk : Nat) (d : Dec) (hs : d.status = none) :
     skip cfg (stk + 1) 12 d = structEnd (skipFields (skip cfg stk) d.budget (structBegin d)) := by
   rw [skip_ok _ _ _ _ hs]; simp [skipCase]
 theorem skip_13 (cfg : Cfg) (stk : Nat) (d : Dec) (hs : d.status = none) :
-    skip cfg (stk + 1) 13 d = d.readerSkip 16 := by rw [skip_ok _ _ _ _ hs]; simp [skipCase]
+    skip cfg (stk + 1) 13 d = d.skipFixed cfg 16 := by rw [skip_ok _ _ _ _ hs]; simp [skipCase]
 
 /-- scalars: one frame, no nesting -/
 theorem skip_scalar (v : TVal) (hnb : v.ty ≠ .bool) (bs : List UInt8) (n : Nat) (hn : n = v.ty.code)
@@ -222,8 +222,9 @@ theorem skip_scalar (v : TVal) (hnb : v.ty ≠ .bool) (bs : List UInt8) (n : Nat
   rw [skipElement_nonbool _ _ _ hd.ok h3, hcode, ← hn, hsk stk d r (by rw [hdep] at hd; exact hd)]
 
 theorem readerSkip_append (d : Dec) (bs r : List UInt8) (h : d.rest = bs ++ r) :
-    d.readerSkip bs.length = d.atb r (d.pos + bs.length) d.boolValue := by
-  unfold Dec.readerSkip
+    d.skipFixed Cfg.fixed bs.length = d.atb r (d.pos + bs.length) d.boolValue := by
+  unfold Dec.skipFixed
+  simp only [Cfg.fixed, if_true]
   rw [has_append d bs r h, if_pos rfl, advance_append d bs r h]
 
 theorem skipContainer_fixed (body : Dec → Dec) (d : Dec) (h : d.lastId.length < maxNesting) :
